@@ -207,6 +207,7 @@ func ProfileFor(prop, tier string, seed uint64) *Profile {
 		pf.WCreate = 8
 		pf.WSelect = 10
 		pf.CacheCaps = []int{0, 0, 32}
+		pf.WFail = 12         // refused statements (also at a later row: the undo paths) under every tick placement
 		if v == 2 || v == 6 { // many tables: the catalog trees split inside CREATE TABLE
 			pf.Tables = [2]int{7, 13}
 			pf.WCreate = 30
